@@ -22,7 +22,9 @@
 #include <boost/gil/io/row_buffer_helper.hpp>
 #include <boost/gil/io/typedefs.hpp>
 
+#include <algorithm>
 #include <type_traits>
+#include <vector>
 
 namespace boost { namespace gil {
 
@@ -274,6 +276,36 @@ private:
                                   );
 
         png_bytep row_ptr = (png_bytep)( &( buffer.data()[0]));
+
+        if( this->_number_passes > 1 )
+        {
+            // Interlaced image: libpng builds every row up over all passes, so the rows must
+            // persist between the passes. Read the whole image, then hand out the requested rows.
+            std::vector< png_byte >  image_data( rowbytes * this->_info._height );
+            std::vector< png_bytep > image_rows( this->_info._height );
+
+            for( std::size_t row = 0; row < image_rows.size(); ++row )
+            {
+                image_rows[row] = &image_data[ row * rowbytes ];
+            }
+
+            png_read_image( this->get_struct(), &image_rows.front() );
+
+            for( std::ptrdiff_t y = 0; y < this->_settings._dim.y; ++y )
+            {
+                png_bytep src_row = image_rows[ y + this->_settings._top_left.y ];
+                std::copy( src_row, src_row + rowbytes, row_ptr );
+
+                it_t first = buffer.begin() + this->_settings._top_left.x;
+                it_t last  = first + this->_settings._dim.x; // one after last element
+
+                this->_cc_policy.read( first
+                                     , last
+                                     , view.row_begin( y ));
+            }
+
+            return;
+        }
 
         for( std::size_t pass = 0; pass < this->_number_passes; pass++ )
         {
